@@ -6,6 +6,17 @@ longer reproduces under the current generators, run the quick tier against the w
 fresh minimised replay of the same violation class in its place. Prints one line per file."""
 import json, os, re, shutil, subprocess, sys, glob
 ENV = dict(os.environ, GOFLAGS="-mod=mod", GOPROXY="off", GOSUMDB="off", GOTOOLCHAIN="local", GOCACHE="/tmp/ev/gocache")
+
+def _prune_cache(limit_gb=30):
+    # scratch worktrees live at changing paths, every one of them adds its own entries to the build cache
+    import subprocess as _sp
+    try:
+        kb = int(_sp.run("du -sk /tmp/ev/gocache 2>/dev/null | cut -f1", shell=True, capture_output=True, text=True).stdout.strip() or 0)
+        if kb > limit_gb * 1024 * 1024:
+            _sp.run("rm -rf /tmp/ev/gocache", shell=True)
+    except Exception:
+        pass
+_prune_cache()
 def sh(cmd, cwd=None, timeout=3600):
     p = subprocess.run(cmd, shell=True, cwd=cwd, env=ENV, capture_output=True, text=True, timeout=timeout)
     return p.returncode, p.stdout + p.stderr
